@@ -33,6 +33,7 @@ def backends : List BackendT := [{ name := "base", supported := ["euler", "heun"
   { name := "fortran", supported := ["euler", "heun", "scipy"], validatesFirst := true, branches := [], fallthrough := "super", hasOwnSolve := true, sparseJac := true, edgeDelayBuffer := true },
   { name := "julia", supported := ["euler", "heun", "scipy", "julia_ode", "julia_dde"], validatesFirst := true, branches := [("?'julia'insolver", "?")], fallthrough := "?results", hasOwnSolve := true, sparseJac := true, edgeDelayBuffer := true },
   { name := "matlab", supported := ["euler", "heun", "scipy"], validatesFirst := true, branches := [], fallthrough := "super", hasOwnSolve := true, sparseJac := true, edgeDelayBuffer := true }]
+def ringFlagSticky : Bool := true
 def vectorizeForbiddenBackends : List String := ["fortran"]
 def autoBlockedLo : Nat := 10
 def autoBlockedHi : Nat := 15
